@@ -8,143 +8,237 @@ import KVerif.Lemmas.ZippyMods
 namespace KVerif.Zippy
 open KVerif.TextBuf
 
-theorem basic_run (cfg : Cfg) (K : Key) (out : List ZchOut) (s : Zchd) (b : Buf)
-    (front : List (Nat × Nat)) (last : Nat)
-    (hent : BasicEntry cfg.dict K out)
-    (hkeys : ∀ x ∈ K, isZippyIgnored x = false)
+/-- What a chord run (all presses of one phase, the last one completing the chord) leaves. -/
+structure RunResult (cfg : Cfg) (ph : Phase) (s0 : Zchd) (base : Buf) (n : Nat) (keys : List Nat)
+    (out : List ZchOut) (ctx : Path) (isPrio : Bool) (r : Zchd × List OsEv) (b : Buf) : Prop where
+  /-- `n` characters were typed on the way; then the backspaces, the rest of the expansion, the smart space -/
+  text : ∃ L : List Ch, L.length = n ∧
+    (b.run r.2).rtext = withSmartSpace cfg out
+      (typeOuts ((L ++ base.rtext).drop (phaseBs ph n out isPrio))
+        ((s0.lsft || s0.rsft) && decide (phaseCpl ph out isPrio = 0)) (out.drop (phaseCpl ph out isPrio)))
+  mods : ModsAgree s0 (b.run r.2)
+  chord : r.1.lastPress = .isChord
+  held : r.1.inputKeys = chordKey (ph.pre ++ keys)
+  post : Forming cfg (postPhase ph cfg (ph.pre ++ keys) out ctx) s0 r.1 [] 0 0
+  ss : r.1.smartSpaceState = (if wantsSmartSpace cfg out = true ∧ cfg.smartSpace = .full then .sent else .inactive)
+
+/-- From a forming state (possibly at the very start of a phase in which keys are already held):
+the remaining presses, the last one completing a chord. -/
+theorem phase_finish (cfg : Cfg) (ph : Phase) (s0 s : Zchd) (b0 b : Buf) (pressed : List Nat) (e c : Nat)
+    (rest : List (Nat × Nat)) (last : Nat) (out : List ZchOut) (ctx : Path) (isPrio : Bool)
+    (hf : Forming cfg ph s0 s pressed e c) (hb : BufForming b0 b pressed.length) (hm0 : ModsAgree s0 b0)
+    (hne : ssmIsEmpty (levelSsm cfg.dict []) = false)
+    (hign : ∀ k ∈ rest.map (·.1) ++ [last], isZippyIgnored k = false)
+    (hpunc : pressed = [] → (s.smartSpaceState = .inactive ∨
+      ∀ k ∈ rest.map (·.1) ++ [last], cfg.punctuation.contains (puncOf s0 k) = false))
+    (hpart : ∀ ks, ks ≠ [] → ks <+: rest.map (·.1) →
+      findChordK cfg ph.prio0 (chordKey (ph.pre ++ (pressed ++ ks))) = .subset)
+    (hfull : (findChordK cfg ph.prio0 (chordKey (ph.pre ++ (pressed ++ (rest.map (·.1) ++ [last]))))).act =
+      some (ctx, out, isPrio))
     (hout : out.isEmpty = false) (hko : ∀ o ∈ out, CharKey o.osc)
-    (hperm : (front.map (·.1) ++ [last]).Perm K)
+    (hgap : ∀ kg ∈ rest, kg.2 ≤ TICKS_UNTIL_FORCE_STATE_RESET)
+    (hdl : cfg.ticksChordDeadline = 0 ∨ e + (rest.map (·.2)).sum < cfg.ticksChordDeadline) :
+    RunResult cfg ph s0 b0 (pressed.length + rest.length) (pressed ++ (rest.map (·.1) ++ [last])) out ctx isPrio
+      ((zRun cfg s (chordHist rest ++ [.press last])).1,
+       (zRun cfg s (chordHist rest ++ [.press last])).2) b := by
+  obtain ⟨e', c', hf3, hb3⟩ := forming_rest (b0 := b0) hne rest s b pressed e c hf hb
+    (fun kg hkg => hign kg.1 (List.mem_append_left _ (List.mem_map.mpr ⟨kg, hkg, rfl⟩)))
+    (by
+      intro hp
+      rcases hpunc hp with h | h
+      · exact Or.inl h
+      · exact Or.inr (fun kg hkg => h kg.1 (List.mem_append_left _ (List.mem_map.mpr ⟨kg, hkg, rfl⟩))))
+    hpart hgap hdl
+  have hpo : puncOf (zRun cfg s (chordHist rest)).1 last = puncOf s0 last := by
+    simp [puncOf, hf3.lsft, hf3.rsft, hf3.altgr]
+  have hss : (zRun cfg s (chordHist rest)).1.smartSpaceState = .inactive ∨
+      cfg.punctuation.contains (puncOf (zRun cfg s (chordHist rest)).1 last) = false := by
+    by_cases hp : pressed ++ rest.map (·.1) = []
+    · have hp1 : pressed = [] := (List.append_eq_nil_iff.mp hp).1
+      have hp2 : rest = [] := by simpa using (List.append_eq_nil_iff.mp hp).2
+      subst hp2
+      simp only [chordHist, List.flatMap_nil, zRun]
+      rcases hpunc hp1 with h | h
+      · exact Or.inl h
+      · right
+        have : puncOf s last = puncOf s0 last := by simp [puncOf, hf.lsft, hf.rsft, hf.altgr]
+        rw [this]; exact h last (by simp)
+    · exact Or.inl (hf3.ss hp)
+  have hlastI : isZippyIgnored last = false := hign last (by simp)
+  have hfc' : (findChordK cfg ph.prio0 (chordKey (ph.pre ++ ((pressed ++ rest.map (·.1)) ++ [last])))).act =
+      some (ctx, out, isPrio) := by simpa [List.append_assoc] using hfull
+  have hfin := final_press (cfg := cfg) (out := out) hf3.ready hb3 hm0 hne last hlastI ctx isPrio hfc' hss hout hko
+  have hpost := final_press_post (cfg := cfg) (out := out) hf3.ready hne last hlastI ctx isPrio hfc' hss hout
+  have hrun : zRun cfg s (chordHist rest ++ [.press last]) =
+      ((zchPressKey cfg (zRun cfg s (chordHist rest)).1 last).1,
+       (zRun cfg s (chordHist rest)).2 ++ (zchPressKey cfg (zRun cfg s (chordHist rest)).1 last).2) := by
+    rw [zRun_append]; simp [zRun, zStep]
+  rw [hrun]
+  simp only
+  obtain ⟨L, hL, hrt⟩ := hb3.text
+  refine ⟨⟨L, by simpa using hL, ?_⟩, ?_, hfin.2.2.1, ?_, ?_, hpost.2⟩
+  · rw [run_append, hfin.1, hrt]; simp
+  · rw [run_append]; exact hfin.2.1
+  · rw [hfin.2.2.2]; simp [List.append_assoc]
+  · simpa [List.append_assoc] using hpost.1
+
+/-- A whole chord from an idle state (nothing held, no deadline running). -/
+theorem idle_run (cfg : Cfg) (s : Zchd) (b : Buf) (front : List (Nat × Nat)) (last : Nat)
+    (out : List ZchOut) (ctx : Path) (isPrio : Bool)
+    (hidle : Idle s) (hmods : ModsAgree s b)
+    (hne : ssmIsEmpty (levelSsm cfg.dict []) = false)
+    (hign : ∀ k ∈ front.map (·.1) ++ [last], isZippyIgnored k = false)
+    (hss : s.smartSpaceState = .inactive ∨
+      cfg.punctuation.contains (puncOf s ((front.map (·.1) ++ [last]).headD 0)) = false)
+    (hpart : ∀ ks, ks ≠ [] → ks <+: front.map (·.1) → findChordK cfg s.prioritized (chordKey ks) = .subset)
+    (hfull : (findChordK cfg s.prioritized (chordKey (front.map (·.1) ++ [last]))).act = some (ctx, out, isPrio))
+    (hout : out.isEmpty = false) (hko : ∀ o ∈ out, CharKey o.osc)
     (hgap : ∀ kg ∈ front, kg.2 ≤ TICKS_UNTIL_FORCE_STATE_RESET)
-    (hdl : cfg.ticksChordDeadline = 0 ∨ (front.map (·.2)).sum < cfg.ticksChordDeadline)
-    (hfresh : Fresh s) (hmods : ModsAgree s b)
-    (hss : s.smartSpaceState = .inactive ∨ ∀ x ∈ K, cfg.punctuation.contains (puncOf s x) = false) :
-    let r := zRun cfg s (chordHist front ++ [.press last])
-    (b.run r.2).rtext = withSmartSpace cfg out (typeOuts b.rtext (s.lsft || s.rsft) out) ∧
-    ModsAgree s (b.run r.2) ∧ r.1.lastPress = .isChord ∧ r.1.inputKeys = K ∧
-    (hasFollowups cfg.dict [K] = false →
-      Forming cfg (postPhase (freshPhase s) cfg (front.map (·.1) ++ [last]) out) s r.1 [] 0 0) := by
-  intro r
-  have hne := hent.root_nonempty
-  have hmem : ∀ x, x ∈ front.map (·.1) ++ [last] ↔ x ∈ K := fun x => hperm.mem_iff
-  have hnodupK : K.Nodup := hent.sorted.imp (fun h => Nat.ne_of_lt h)
-  have hnodup : (front.map (·.1) ++ [last]).Nodup := hperm.nodup_iff.mpr hnodupK
-  have hlastK : last ∈ K := (hmem last).mp (by simp)
-  have hlast_notin : last ∉ front.map (·.1) := by
-    intro h
-    have := List.nodup_append.mp hnodup
-    exact this.2.2 last h last (by simp) rfl
-  have hfull : chordKey (front.map (·.1) ++ [last]) = K :=
-    strictSorted_ext _ _ (strictSorted_chordKey _) hent.sorted
-      (fun x => by rw [mem_chordKey]; exact hmem x)
-  -- every key set reached before the last press is a proper part of `K`
-  have hpart : ∀ ks : List Nat, (∀ x ∈ ks, x ∈ front.map (·.1)) →
-      lookupLevel cfg.dict [] (chordKey ks) = .isSubset := by
-    intro ks hks
-    apply hent.lookup_part
-    · intro x hx
-      exact (hmem x).mp (List.mem_append_left _ (hks x ((mem_chordKey _ _).mp hx)))
-    · intro heq
-      have : last ∈ chordKey ks := heq ▸ hlastK
-      exact hlast_notin (hks last ((mem_chordKey _ _).mp this))
-  have hcpl : phaseCpl (freshPhase s) out = 0 := by
-    unfold phaseCpl freshPhase
-    simp only
-    split <;> rfl
-  have hrun : r = zRun cfg s (chordHist front ++ [.press last]) := rfl
-  rw [zRun_append] at hrun
-  have hlastrun : ∀ s', zRun cfg s' [.press last] = zchPressKey cfg s' last := by
-    intro s'; simp [zRun, zStep]
-  have hdrop : ∀ (b' : Buf) (n : Nat), BufForming b b' n →
-      List.drop ((freshPhase s).ctd0 + (n : Int) - ((0 : Nat) : Int)).toNat b'.rtext = b.rtext := by
-    intro b' n hb'
-    obtain ⟨L, hL, hrt⟩ := hb'.text
-    have : ((freshPhase s).ctd0 + (n : Int) - ((0 : Nat) : Int)).toNat = n := by simp [freshPhase]
-    rw [this, hrt, ← hL]; simp
+    (hdl : cfg.ticksChordDeadline = 0 ∨ (front.map (·.2)).sum < cfg.ticksChordDeadline) :
+    RunResult cfg (idlePhase s) s b front.length (front.map (·.1) ++ [last]) out ctx isPrio
+      ((zRun cfg s (chordHist front ++ [.press last])).1,
+       (zRun cfg s (chordHist front ++ [.press last])).2) b := by
   cases front with
   | nil =>
-    simp only [chordHist, List.flatMap_nil, zRun, List.nil_append, hlastrun] at hrun
     have hb0 : BufForming b b ([] : List Nat).length := ⟨⟨[], rfl, rfl⟩, rfl, rfl, rfl⟩
+    have hlastI : isZippyIgnored last = false := hign last (by simp)
     have hss' : s.smartSpaceState = .inactive ∨ cfg.punctuation.contains (puncOf s last) = false := by
-      rcases hss with h | h
-      · exact Or.inl h
-      · exact Or.inr (h last hlastK)
-    have := final_press (cfg := cfg) (out := out) hfresh.ready hb0 hmods hne last (hkeys last hlastK)
-      (by simp only [freshPhase, List.nil_append]
-          rw [show chordKey [last] = K from by simpa using hfull]; exact hent.lookup_full)
-      hss' hout hko
-    have hlk1 : lookupLevel cfg.dict [] (chordKey ((freshPhase s).pre ++ (([] : List Nat) ++ [last]))) = .hasValue out := by
-      simp only [freshPhase, List.nil_append]
-      rw [show chordKey [last] = K from by simpa using hfull]; exact hent.lookup_full
-    have hpost := fun hnf => final_press_post (cfg := cfg) (out := out) hfresh.ready hne last (hkeys last hlastK)
-      hlk1 hss' hout (by
-        simp only [freshPhase, List.nil_append]
-        rw [show chordKey [last] = K from by simpa using hfull]; exact hnf)
-    rw [hcpl, hdrop b _ hb0] at this
+      simpa using hss
+    have hfc' : (findChordK cfg (idlePhase s).prio0 (chordKey ((idlePhase s).pre ++ (([] : List Nat) ++ [last])))).act =
+        some (ctx, out, isPrio) := by simpa [idlePhase] using hfull
+    have hfin := final_press (cfg := cfg) (out := out) hidle.ready hb0 hmods hne last hlastI ctx isPrio hfc' hss' hout hko
+    have hpost := final_press_post (cfg := cfg) (out := out) hidle.ready hne last hlastI ctx isPrio hfc' hss' hout
+    have hrun : zRun cfg s (chordHist [] ++ [.press last]) = zchPressKey cfg s last := by
+      simp [chordHist, zRun, zStep]
     rw [hrun]
-    simp only [freshPhase, List.nil_append, List.drop_zero] at this
-    rw [show chordKey [last] = K from by simpa using hfull] at this
-    refine ⟨by simpa [zStep] using this.1, by simpa [zStep] using this.2.1, by simpa [zStep] using this.2.2.1,
-      by simpa [zStep] using this.2.2.2, ?_⟩
-    intro hnf
-    simpa [zStep, freshPhase] using hpost hnf
+    refine ⟨⟨[], rfl, ?_⟩, hfin.2.1, hfin.2.2.1, ?_, ?_, hpost.2⟩
+    · simpa using hfin.1
+    · simpa [idlePhase] using hfin.2.2.2
+    · simpa [idlePhase] using hpost.1
   | cons kg rest =>
     obtain ⟨k1, g1⟩ := kg
-    simp only [List.map_cons, List.cons_append, List.sum_cons] at hmem hfull hdl hlast_notin hpart
-    have hk1K : k1 ∈ K := (hmem k1).mp (by simp)
+    simp only [List.map_cons, List.cons_append, List.sum_cons] at hign hss hpart hfull hdl
     have hss1 : s.smartSpaceState = .inactive ∨ cfg.punctuation.contains (puncOf s k1) = false := by
-      rcases hss with h | h
-      · exact Or.inl h
-      · exact Or.inr (h k1 hk1K)
-    obtain ⟨hf1, hb1⟩ := hfresh.press (b := b) hne k1 (hkeys k1 hk1K) hss1
-      (hpart [k1] (by intro x hx; simp at hx; simp [hx]))
+      simpa using hss
+    obtain ⟨hf1, hb1⟩ := hidle.press (b := b) hne k1 (hign k1 (by simp)) hss1
+      (hpart [k1] (by simp) (by simp))
     have hg1 : g1 ≤ TICKS_UNTIL_FORCE_STATE_RESET := hgap (k1, g1) (List.mem_cons_self ..)
     have hf2 := hf1.ticks g1 (by omega)
       (by rcases hdl with h0 | h1; exact Or.inl h0; exact Or.inr (by omega))
-    obtain ⟨e', c', hf3, hb3⟩ := forming_rest (b0 := b) hne rest _ _ [k1] (0 + g1) (0 + g1) hf2 hb1
-      (fun kg hkg => hkeys kg.1 ((hmem kg.1).mp (by
-        simp only [List.mem_cons, List.mem_append, List.mem_map, List.mem_singleton]
-        exact Or.inr (Or.inl ⟨kg, hkg, rfl⟩))))
+    have hres := phase_finish cfg (idlePhase s) s (ticksN (zchPressKey cfg s k1).1 g1) b
+      (b.run (zchPressKey cfg s k1).2) [k1] (0 + g1) (0 + g1) rest last out ctx isPrio hf2 hb1 hmods hne
+      (fun k hk => hign k (List.mem_cons_of_mem _ hk))
       (by intro hp; simp at hp)
       (by
-        intro ks _ hpre
-        simp only [freshPhase, List.nil_append]
-        apply hpart
-        intro x hx
-        simp only [List.singleton_append, List.mem_cons] at hx ⊢
-        rcases hx with hx | hx
-        · exact Or.inl hx
-        · exact Or.inr (hpre.subset hx))
-      (fun kg hkg => hgap kg (List.mem_cons_of_mem _ hkg))
+        intro ks hks hpre
+        simp only [idlePhase, List.nil_append]
+        exact hpart (k1 :: ks) (by simp) (by simpa using hpre))
+      (by simpa [idlePhase] using hfull)
+      hout hko (fun kg hkg => hgap kg (List.mem_cons_of_mem _ hkg))
       (by rcases hdl with h0 | h1; exact Or.inl h0; exact Or.inr (by omega))
-    have hfin := final_press (cfg := cfg) (out := out) hf3.ready hb3 hmods hne last (hkeys last hlastK)
-      (by simp only [freshPhase, List.nil_append]
-          rw [show chordKey ([k1] ++ List.map (fun x => x.1) rest ++ [last]) = K from by
-            simpa [List.append_assoc] using hfull]
-          exact hent.lookup_full)
-      (Or.inl (hf3.ss (by simp))) hout hko
-    have hpost := fun hnf => final_press_post (cfg := cfg) (out := out) hf3.ready hne last (hkeys last hlastK)
-      (by simp only [freshPhase, List.nil_append]
-          rw [show chordKey ([k1] ++ List.map (fun x => x.1) rest ++ [last]) = K from by
-            simpa [List.append_assoc] using hfull]
-          exact hent.lookup_full)
-      (Or.inl (hf3.ss (by simp))) hout (by
-        simp only [freshPhase, List.nil_append]
-        rw [show chordKey ([k1] ++ List.map (fun x => x.1) rest ++ [last]) = K from by
-          simpa [List.append_assoc] using hfull]
-        exact hnf)
-    rw [hcpl, hdrop _ _ hb3] at hfin
-    simp only [freshPhase, List.nil_append, List.drop_zero] at hfin
-    rw [show chordKey ([k1] ++ List.map (fun x => x.1) rest ++ [last]) = K from by
-      simpa [List.append_assoc] using hfull] at hfin
-    rw [chordHist_cons, zRun_append, zRun_pressTicks] at hrun
-    simp only [hlastrun] at hrun
+    have hrun : zRun cfg s (chordHist ((k1, g1) :: rest) ++ [.press last]) =
+        ((zRun cfg (ticksN (zchPressKey cfg s k1).1 g1) (chordHist rest ++ [.press last])).1,
+         (zchPressKey cfg s k1).2 ++ (zRun cfg (ticksN (zchPressKey cfg s k1).1 g1) (chordHist rest ++ [.press last])).2) := by
+      rw [chordHist_cons, List.append_assoc, zRun_append, zRun_pressTicks]
     rw [hrun]
-    simp only [run_append]
-    refine ⟨by simpa using hfin.1, by simpa using hfin.2.1, by simpa using hfin.2.2.1,
-      by simpa using hfin.2.2.2, ?_⟩
-    intro hnf
-    simpa [freshPhase, List.append_assoc] using hpost hnf
+    obtain ⟨⟨L, hL, ht⟩, hm, hc, hh, hp, hsss⟩ := hres
+    refine ⟨⟨L, by simpa [Nat.add_comm] using hL, ?_⟩, ?_, hc, ?_, ?_, hsss⟩
+    · simp only [run_append] at ht ⊢
+      simpa [Nat.add_comm] using ht
+    · simpa [run_append] using hm
+    · simpa [idlePhase] using hh
+    · simpa [idlePhase] using hp
 
+/-- the state and buffer a chord really starts from: after the punctuation erasure of a smart space,
+if the first key triggers it -/
+def afterPunct (cfg : Cfg) (s : Zchd) (first : Nat) : Zchd :=
+  if punctFires cfg s first then { punctState s with smartSpaceState := .inactive } else s
+
+def bufAfterPunct (cfg : Cfg) (s : Zchd) (first : Nat) (b : Buf) : Buf :=
+  if punctFires cfg s first then { b with rtext := b.rtext.tail } else b
+
+theorem zRun_first_punct (cfg : Cfg) (s : Zchd) (k : Nat) (rest : List ZEv)
+    (hne : ssmIsEmpty (levelSsm cfg.dict []) = false) (hk : isZippyIgnored k = false) :
+    zRun cfg s (.press k :: rest) =
+      ((zRun cfg (afterPunct cfg s k) (.press k :: rest)).1,
+       (if punctFires cfg s k then bspc else []) ++ (zRun cfg (afterPunct cfg s k) (.press k :: rest)).2) := by
+  unfold afterPunct
+  cases h : punctFires cfg s k
+  · simp
+  · simp only [if_true, zRun, zStep]
+    rw [press_punct cfg s k hne hk h]
+    simp [List.append_assoc]
+
+theorem chordHist_head (front : List (Nat × Nat)) (last : Nat) :
+    chordHist front ++ [ZEv.press last] =
+      ZEv.press ((front.map (·.1) ++ [last]).headD 0) :: (chordHist front ++ [ZEv.press last]).tail := by
+  cases front with
+  | nil => simp [chordHist]
+  | cons kg r => simp [chordHist_cons, pressTicks]
+
+/-- A whole chord from an idle state, whatever the smart-space state: a punctuation key pressed
+first after a smart space erases that space (one backspace) and the chord then runs as usual. -/
+theorem idle_run_any (cfg : Cfg) (s : Zchd) (b : Buf) (front : List (Nat × Nat)) (last : Nat)
+    (out : List ZchOut) (ctx : Path) (isPrio : Bool)
+    (hidle : Idle s) (hmods : ModsAgree s b)
+    (hne : ssmIsEmpty (levelSsm cfg.dict []) = false)
+    (hign : ∀ k ∈ front.map (·.1) ++ [last], isZippyIgnored k = false)
+    (hpart : ∀ ks, ks ≠ [] → ks <+: front.map (·.1) → findChordK cfg s.prioritized (chordKey ks) = .subset)
+    (hfull : (findChordK cfg s.prioritized (chordKey (front.map (·.1) ++ [last]))).act = some (ctx, out, isPrio))
+    (hout : out.isEmpty = false) (hko : ∀ o ∈ out, CharKey o.osc)
+    (hgap : ∀ kg ∈ front, kg.2 ≤ TICKS_UNTIL_FORCE_STATE_RESET)
+    (hdl : cfg.ticksChordDeadline = 0 ∨ (front.map (·.2)).sum < cfg.ticksChordDeadline) :
+    let first := (front.map (·.1) ++ [last]).headD 0
+    let s' := afterPunct cfg s first
+    let b' := bufAfterPunct cfg s first b
+    let r := zRun cfg s (chordHist front ++ [.press last])
+    let r' := zRun cfg s' (chordHist front ++ [.press last])
+    b.run r.2 = b'.run r'.2 ∧ r.1 = r'.1 ∧
+    RunResult cfg (idlePhase s') s' b' front.length (front.map (·.1) ++ [last]) out ctx isPrio (r'.1, r'.2) b' := by
+  intro first s' b' r r'
+  have hfirstI : isZippyIgnored first = false := by
+    apply hign
+    cases front with
+    | nil => simp [first]
+    | cons kg rr => simp [first]
+  have hrun : r = (r'.1, (if punctFires cfg s first then bspc else []) ++ r'.2) := by
+    show zRun cfg s (chordHist front ++ [.press last]) =
+      ((zRun cfg s' (chordHist front ++ [.press last])).1,
+       (if punctFires cfg s first then bspc else []) ++ (zRun cfg s' (chordHist front ++ [.press last])).2)
+    obtain ⟨t, ht⟩ : ∃ t, chordHist front ++ [ZEv.press last] = ZEv.press first :: t :=
+      ⟨_, chordHist_head front last⟩
+    rw [ht]
+    exact zRun_first_punct cfg s first t hne hfirstI
+  have hs'flags : s'.lsft = s.lsft ∧ s'.rsft = s.rsft ∧ s'.altgr = s.altgr := by
+    simp only [s', afterPunct]; split <;> simp [punctState]
+  have hidle' : Idle s' := by
+    simp only [s', afterPunct]
+    split
+    · exact ⟨hidle.en, hidle.keys, by simp [punctState, hidle.keys, hidle.ctd], hidle.tud, hidle.caps⟩
+    · exact hidle
+  have hprio' : s'.prioritized = s.prioritized := by
+    simp only [s', afterPunct]; split <;> simp [punctState]
+  have hbrun : b.run (if punctFires cfg s first then bspc else []) = b' := by
+    simp only [b', bufAfterPunct]
+    split
+    · rw [run_bspc]
+    · rfl
+  have hmods' : ModsAgree s' b' := by
+    obtain ⟨h1, h2, h3⟩ := hmods
+    have : b'.lsft = b.lsft ∧ b'.rsft = b.rsft ∧ b'.ralt = b.ralt := by
+      simp only [b', bufAfterPunct]; split <;> simp
+    exact ⟨by rw [this.1, h1, hs'flags.1], by rw [this.2.1, h2, hs'flags.2.1], by rw [this.2.2, h3, hs'flags.2.2]⟩
+  have hss' : s'.smartSpaceState = .inactive ∨
+      cfg.punctuation.contains (puncOf s' ((front.map (·.1) ++ [last]).headD 0)) = false := by
+    simp only [s', afterPunct]
+    cases hf : punctFires cfg s first
+    · simp only [Bool.false_eq_true, if_false]
+      exact (punctFires_false_iff cfg s first).mp hf
+    · exact Or.inl (by simp)
+  refine ⟨?_, by rw [hrun], ?_⟩
+  · rw [hrun]; simp only [run_append, hbrun]
+  · exact idle_run cfg s' b' front last out ctx isPrio hidle' hmods' hne hign hss'
+      (by rw [hprio']; exact hpart) (by rw [hprio']; exact hfull) hout hko hgap hdl
 
 /-- the characters of an expansion, in typing order -/
 def expansionChars (sh : Bool) : List ZchOut → List Ch
@@ -162,16 +256,106 @@ theorem typeOuts_noBackspace (rt : List Ch) (sh : Bool) (out : List ZchOut)
     simp [expansionChars, stroke, ho]
 
 
+/-! ### A top-level chord without a shorter chord inside it, from a fresh state -/
+
+theorem Fresh.idle {s : Zchd} (h : Fresh s) : Idle s := ⟨h.en, h.keys, h.ctd, h.tud, h.caps⟩
+
+/-- Facts about a permutation `front ++ [last]` of a strictly sorted key set. -/
+theorem perm_facts {K : Key} {front : List (Nat × Nat)} {last : Nat} (hs : StrictSorted K)
+    (hperm : (front.map (·.1) ++ [last]).Perm K) :
+    (∀ x, x ∈ front.map (·.1) ++ [last] ↔ x ∈ K) ∧ last ∈ K ∧ last ∉ front.map (·.1) ∧
+    chordKey (front.map (·.1) ++ [last]) = K := by
+  have hmem : ∀ x, x ∈ front.map (·.1) ++ [last] ↔ x ∈ K := fun x => hperm.mem_iff
+  have hnodupK : K.Nodup := hs.imp (fun h => Nat.ne_of_lt h)
+  have hnodup : (front.map (·.1) ++ [last]).Nodup := hperm.nodup_iff.mpr hnodupK
+  refine ⟨hmem, (hmem last).mp (by simp), ?_, ?_⟩
+  · intro h
+    have := List.nodup_append.mp hnodup
+    exact this.2.2 last h last (by simp) rfl
+  · exact strictSorted_ext _ _ (strictSorted_chordKey _) hs (fun x => by rw [mem_chordKey]; exact hmem x)
+
+/-- The run of a basic chord (see `zippy_net_text_basic`), with the state it ends in. -/
+theorem basic_run (cfg : Cfg) (K : Key) (out : List ZchOut) (s : Zchd) (b : Buf)
+    (front : List (Nat × Nat)) (last : Nat)
+    (hent : BasicEntry cfg.dict K out)
+    (hkeys : ∀ x ∈ K, isZippyIgnored x = false)
+    (hout : out.isEmpty = false) (hko : ∀ o ∈ out, CharKey o.osc)
+    (hperm : (front.map (·.1) ++ [last]).Perm K)
+    (hgap : ∀ kg ∈ front, kg.2 ≤ TICKS_UNTIL_FORCE_STATE_RESET)
+    (hdl : cfg.ticksChordDeadline = 0 ∨ (front.map (·.2)).sum < cfg.ticksChordDeadline)
+    (hfresh : Fresh s) (hmods : ModsAgree s b) :
+    let first := (front.map (·.1) ++ [last]).headD 0
+    let r := zRun cfg s (chordHist front ++ [.press last])
+    (b.run r.2).rtext =
+      withSmartSpace cfg out (typeOuts (bufAfterPunct cfg s first b).rtext (s.lsft || s.rsft) out) ∧
+    ModsAgree s (b.run r.2) ∧ r.1.lastPress = .isChord ∧ r.1.inputKeys = K ∧
+    Forming cfg (postPhase (idlePhase (afterPunct cfg s first)) cfg (front.map (·.1) ++ [last]) out [])
+      s r.1 [] 0 0 ∧
+    r.1.smartSpaceState = (if wantsSmartSpace cfg out = true ∧ cfg.smartSpace = .full then .sent else .inactive) := by
+  intro first r
+  obtain ⟨hmem, hlastK, hlast_notin, hfull⟩ := perm_facts hent.sorted hperm
+  have hprio : s.prioritized = none := hfresh.prio
+  have hpart : ∀ ks, ks ≠ [] → ks <+: front.map (·.1) → findChordK cfg s.prioritized (chordKey ks) = .subset := by
+    intro ks _ hpre
+    rw [hprio, findChordK_none]
+    have : lookupLevel cfg.dict [] (chordKey ks) = .isSubset := by
+      apply hent.lookup_part
+      · intro x hx
+        exact (hmem x).mp (List.mem_append_left _ (hpre.subset ((mem_chordKey _ _).mp hx)))
+      · intro heq
+        have : last ∈ chordKey ks := heq ▸ hlastK
+        exact hlast_notin (hpre.subset ((mem_chordKey _ _).mp this))
+    rw [this]
+  have hfc : (findChordK cfg s.prioritized (chordKey (front.map (·.1) ++ [last]))).act = some ([], out, false) := by
+    rw [hprio, findChordK_none, hfull, hent.lookup_full]; rfl
+  obtain ⟨hb, hr1, hres⟩ := idle_run_any cfg s b front last out [] false hfresh.idle hmods hent.root_nonempty
+    (fun k hk => hkeys k ((hmem k).mp hk)) hpart hfc hout hko hgap hdl
+  obtain ⟨⟨L, hL, ht⟩, hm, hc, hh, hp, hsss⟩ := hres
+  -- flags and history of the state after the punctuation erasure
+  have hs' : (afterPunct cfg s first).lsft = s.lsft ∧ (afterPunct cfg s first).rsft = s.rsft ∧
+      (afterPunct cfg s first).altgr = s.altgr ∧ (afterPunct cfg s first).priorActivation = none := by
+    simp only [afterPunct]; split <;> simp [punctState, hfresh.prior]
+  have hcpl : phaseCpl (idlePhase (afterPunct cfg s first)) out false = 0 := by
+    unfold phaseCpl idlePhase
+    simp only [hs'.2.2.2]
+    split <;> rfl
+  have hbs : phaseBs (idlePhase (afterPunct cfg s first)) front.length out false = front.length := by
+    unfold phaseBs
+    rw [hcpl]
+    simp [idlePhase]
+  refine ⟨?_, ?_, ?_, ?_, ?_, ?_⟩
+  rotate_right
+  · show (zRun cfg s (chordHist front ++ [.press last])).1.smartSpaceState = _
+    rw [hr1]; exact hsss
+  · show (b.run (zRun cfg s (chordHist front ++ [.press last])).2).rtext = _
+    rw [hb, ht, hcpl, hbs, ← hL, List.drop_left, hs'.1, hs'.2.1]
+    simp only [List.drop_zero, decide_true, Bool.and_true]
+    rfl
+  · show ModsAgree s (b.run (zRun cfg s (chordHist front ++ [.press last])).2)
+    rw [hb]
+    obtain ⟨h1, h2, h3⟩ := hm
+    exact ⟨by rw [h1, hs'.1], by rw [h2, hs'.2.1], by rw [h3, hs'.2.2.1]⟩
+  · show (zRun cfg s (chordHist front ++ [.press last])).1.lastPress = _
+    rw [hr1]; exact hc
+  · show (zRun cfg s (chordHist front ++ [.press last])).1.inputKeys = _
+    rw [hr1, hh]; simpa [idlePhase] using hfull
+  · show Forming cfg _ s (zRun cfg s (chordHist front ++ [.press last])).1 [] 0 0
+    rw [hr1]
+    have := hp
+    simp only [idlePhase, List.nil_append] at this ⊢
+    obtain ⟨a1, a2, a3, a4, a5, a6, a7, a8, a9, a10, a11, a12, a13, a14⟩ := this
+    exact ⟨a1, a2, a3, a4, a5, a6, a7, by rw [a8, hs'.1], by rw [a9, hs'.2.1], by rw [a10, hs'.2.2.1], a11, a12, a13, a14⟩
+
 /-! ### The remaining keys of a longer chord, after a shorter one has been activated in this hold -/
 
-/-- `K2 ↦ out2` is a top-level chord stored once, `K1` lies inside it, and the top-level chords whose
-keys all lie in `K2` are exactly `K1` and `K2`. -/
+/-- `K2 ↦ out2` is a top-level chord stored once, and every top-level chord whose keys all lie in
+`K2` is `K2` itself or lies inside `K1` (so between `K1` and `K2` there is no other chord). -/
 structure ExtEntry (d : Dict) (K1 K2 : Key) (out2 : List ZchOut) : Prop where
   mem : (K2, out2) ∈ level d []
   ne : K2 ≠ []
   sorted : StrictSorted K2
   uniq : ∀ out', (K2, out') ∈ level d [] → out' = out2
-  inside : ∀ kv ∈ level d [], isSubsetOf kv.1 K2 = true → kv.1 = K1 ∨ kv.1 = K2
+  inside : ∀ kv ∈ level d [], isSubsetOf kv.1 K2 = true → (∀ x ∈ kv.1, x ∈ K1) ∨ kv.1 = K2
 
 theorem ExtEntry.lookup_full {d : Dict} {K1 K2 : Key} {out2 : List ZchOut} (h : ExtEntry d K1 K2 out2) :
     lookupLevel d [] K2 = .hasValue out2 := by
@@ -180,7 +364,7 @@ theorem ExtEntry.lookup_full {d : Dict} {K1 K2 : Key} {out2 : List ZchOut} (h : 
   rw [lastInsert_unique h.mem h.ne h.uniq]
 
 theorem ExtEntry.lookup_part {d : Dict} {K1 K2 : Key} {out2 : List ZchOut} (h : ExtEntry d K1 K2 out2)
-    (S : Key) (hsub : ∀ x ∈ S, x ∈ K2) (hn1 : S ≠ K1) (hn2 : S ≠ K2) :
+    (S : Key) (hsub : ∀ x ∈ S, x ∈ K2) (hn1 : ∃ y ∈ S, y ∉ K1) (hn2 : S ≠ K2) :
     lookupLevel d [] S = .isSubset := by
   rw [lookupLevel_eq]
   unfold lookupSpec
@@ -188,7 +372,8 @@ theorem ExtEntry.lookup_part {d : Dict} {K1 K2 : Key} {out2 : List ZchOut} (h : 
     apply lastInsert_none_of_not_mem
     intro kv hkv heq
     rcases h.inside kv hkv (by rw [heq]; exact (isSubsetOf_iff S K2).mpr hsub) with h1 | h1
-    · exact hn1 (heq ▸ h1)
+    · obtain ⟨y, hy, hny⟩ := hn1
+      exact hny (h1 y (heq ▸ hy))
     · exact hn2 (heq ▸ h1)
   rw [hnone]
   have hany : (level d []).any (fun kv => !kv.1.isEmpty && isSubsetOf S kv.1) = true := by
@@ -197,106 +382,6 @@ theorem ExtEntry.lookup_part {d : Dict} {K1 K2 : Key} {out2 : List ZchOut} (h : 
     simp only [Bool.and_eq_true, Bool.not_eq_true', List.isEmpty_eq_false_iff]
     exact ⟨h.ne, (isSubsetOf_iff S K2).mpr hsub⟩
   simp [hany]
-
-/-- From a state in which the keys `ph.pre` (the shorter chord, already activated) are down, the
-remaining keys of `K2` go down in any order: each but the last is typed, the last one completes `K2`. -/
-theorem ext_run (cfg : Cfg) (ph : Phase) (K1 K2 : Key) (out2 : List ZchOut) (s0 s : Zchd) (b0 b : Buf)
-    (e c : Nat) (front : List (Nat × Nat)) (last : Nat)
-    (hf : Forming cfg ph s0 s [] e c) (hbm : b.lsft = b0.lsft ∧ b.rsft = b0.rsft ∧ b.ralt = b0.ralt)
-    (hm0 : ModsAgree s0 b0)
-    (hne : ssmIsEmpty (levelSsm cfg.dict []) = false)
-    (hext : ExtEntry cfg.dict K1 K2 out2)
-    (hpre : ∀ x, x ∈ ph.pre ↔ x ∈ K1) (hK1 : StrictSorted K1)
-    (hkeys : ∀ x ∈ K2, isZippyIgnored x = false)
-    (hnew : ∀ kg ∈ front, kg.1 ∉ K1)
-    (hall : ∀ x, x ∈ ph.pre ++ (front.map (·.1) ++ [last]) ↔ x ∈ K2)
-    (hlast : last ∉ ph.pre ++ front.map (·.1)) (hlast1 : last ∉ K1)
-    (hpunc : s.smartSpaceState = .inactive ∨ ∀ x ∈ K2, cfg.punctuation.contains (puncOf s0 x) = false)
-    (hout : out2.isEmpty = false) (hko : ∀ o ∈ out2, CharKey o.osc)
-    (hgap : ∀ kg ∈ front, kg.2 ≤ TICKS_UNTIL_FORCE_STATE_RESET)
-    (hdl : cfg.ticksChordDeadline = 0 ∨ e + (front.map (·.2)).sum < cfg.ticksChordDeadline) :
-    let r := zRun cfg s (chordHist front ++ [.press last])
-    (∃ L : List Ch, L.length = front.length ∧
-      (b.run r.2).rtext = withSmartSpace cfg out2
-        (typeOuts ((L ++ b.rtext).drop (ph.ctd0 + front.length - (phaseCpl ph out2 : Int)).toNat)
-          (s0.lsft || s0.rsft) (out2.drop (phaseCpl ph out2)))) ∧
-    ModsAgree s0 (b.run r.2) ∧ r.1.lastPress = .isChord := by
-  intro r
-  have hlastK : last ∈ K2 := (hall last).mp (by simp)
-  have hfull : chordKey (ph.pre ++ (front.map (·.1) ++ [last])) = K2 :=
-    strictSorted_ext _ _ (strictSorted_chordKey _) hext.sorted
-      (fun x => by rw [mem_chordKey]; exact hall x)
-  -- key sets reached before the last press: K1 plus some (at least one) new keys, never all of K2
-  have hpart : ∀ ks : List Nat, ks ≠ [] → (∀ x ∈ ks, x ∈ front.map (·.1)) →
-      lookupLevel cfg.dict [] (chordKey (ph.pre ++ ks)) = .isSubset := by
-    intro ks hks hsub
-    apply hext.lookup_part
-    · intro x hx
-      rw [mem_chordKey] at hx
-      apply (hall x).mp
-      rcases List.mem_append.mp hx with h | h
-      · exact List.mem_append_left _ h
-      · exact List.mem_append_right _ (List.mem_append_left _ (hsub x h))
-    · intro heq
-      obtain ⟨y, hy⟩ := List.exists_mem_of_ne_nil ks hks
-      have hy1 : y ∈ chordKey (ph.pre ++ ks) := (mem_chordKey _ _).mpr (List.mem_append_right _ hy)
-      rw [heq] at hy1
-      obtain ⟨kg, hkg, hk⟩ := List.mem_map.mp (hsub y hy)
-      exact hnew kg hkg (hk ▸ hy1)
-    · intro heq
-      have : last ∈ chordKey (ph.pre ++ ks) := heq ▸ hlastK
-      rw [mem_chordKey] at this
-      apply hlast
-      rcases List.mem_append.mp this with h | h
-      · exact List.mem_append_left _ h
-      · exact List.mem_append_right _ (hsub last h)
-  have hb0 : BufForming b b ([] : List Nat).length := ⟨⟨[], rfl, rfl⟩, rfl, rfl, rfl⟩
-  have hpo : ∀ (s' : Zchd) (k : Nat), s'.lsft = s0.lsft → s'.rsft = s0.rsft → s'.altgr = s0.altgr →
-      puncOf s' k = puncOf s0 k := by
-    intro s' k h1 h2 h3; simp [puncOf, h1, h2, h3]
-  obtain ⟨e', c', hf3, hb3⟩ := forming_rest (b0 := b) hne front s b [] e c hf hb0
-    (fun kg hkg => hkeys kg.1 ((hall kg.1).mp (by
-      simp only [List.mem_append, List.mem_map, List.mem_singleton]
-      exact Or.inr (Or.inl ⟨kg, hkg, rfl⟩))))
-    (by
-      intro _
-      rcases hpunc with h | h
-      · exact Or.inl h
-      · exact Or.inr (fun kg hkg => h kg.1 ((hall kg.1).mp (by
-          simp only [List.mem_append, List.mem_map, List.mem_singleton]
-          exact Or.inr (Or.inl ⟨kg, hkg, rfl⟩)))))
-    (by
-      intro ks hks hpre
-      simp only [List.nil_append]
-      exact hpart ks hks (fun x hx => hpre.subset hx))
-    hgap hdl
-  simp only [List.nil_append] at hf3 hb3
-  have hss : (zRun cfg s (chordHist front)).1.smartSpaceState = .inactive ∨
-      cfg.punctuation.contains (puncOf (zRun cfg s (chordHist front)).1 last) = false := by
-    by_cases hfe : front.map (·.1) = []
-    · have : front = [] := by simpa using hfe
-      subst this
-      simp only [chordHist, List.flatMap_nil, zRun]
-      rcases hpunc with h | h
-      · exact Or.inl h
-      · exact Or.inr (by rw [hpo s last hf.lsft hf.rsft hf.altgr]; exact h last hlastK)
-    · exact Or.inl (hf3.ss hfe)
-  have hm0' : ModsAgree s0 b := by
-    obtain ⟨h1, h2, h3⟩ := hm0
-    exact ⟨by rw [hbm.1, h1], by rw [hbm.2.1, h2], by rw [hbm.2.2, h3]⟩
-  have hfin := final_press (cfg := cfg) (out := out2) hf3.ready hb3 hm0' hne last (hkeys last hlastK)
-    (by rw [hfull]; exact hext.lookup_full) hss hout hko
-  have hrun : r = zRun cfg s (chordHist front ++ [.press last]) := rfl
-  rw [zRun_append] at hrun
-  have hlastrun : ∀ s', zRun cfg s' [.press last] = zchPressKey cfg s' last := by
-    intro s'; simp [zRun, zStep]
-  simp only [hlastrun] at hrun
-  rw [hrun]
-  simp only [run_append]
-  obtain ⟨L, hL, hrt⟩ := hb3.text
-  refine ⟨⟨L, by simpa using hL, ?_⟩, hfin.2.1, hfin.2.2.1⟩
-  rw [hfin.1, hrt]
-  simp
 
 /-! ### Expansions without Backspace / no-erase outputs -/
 
@@ -368,31 +453,38 @@ theorem typeOuts_append_false (rt : List Ch) (a b : List ZchOut) :
   | nil => rfl
   | cons o os ih => simp only [List.cons_append, typeOuts, ih]
 
-theorem typeOuts_plain_length (rt : List Ch) (outs : List ZchOut) (h : PlainOuts outs) :
-    (typeOuts rt false outs).length = outs.length + rt.length := by
+theorem typeOuts_append (rt : List Ch) (sh : Bool) (a b : List ZchOut) :
+    typeOuts rt sh (a ++ b) = typeOuts (typeOuts rt sh a) (sh && a.isEmpty) b := by
+  cases a with
+  | nil => simp [typeOuts]
+  | cons o os =>
+    simp only [List.cons_append, typeOuts, List.isEmpty_cons, Bool.and_false, typeOuts_append_false]
+
+theorem typeOuts_plain_length (rt : List Ch) (sh : Bool) (outs : List ZchOut) (h : PlainOuts outs) :
+    (typeOuts rt sh outs).length = outs.length + rt.length := by
   rw [typeOuts_noBackspace _ _ _ h.noBs]
   simp [expansionChars_length]
 
 /-- Erasing all but the first `n` characters of a plain expansion leaves the expansion's first `n`
 outputs typed. -/
-theorem typeOuts_plain_drop (rt : List Ch) (outs : List ZchOut) (h : PlainOuts outs) (n : Nat)
+theorem typeOuts_plain_drop (rt : List Ch) (sh : Bool) (outs : List ZchOut) (h : PlainOuts outs) (n : Nat)
     (hn : n ≤ outs.length) :
-    (typeOuts rt false outs).drop (outs.length - n) = typeOuts rt false (outs.take n) := by
-  induction outs generalizing rt n with
+    (typeOuts rt sh outs).drop (outs.length - n) = typeOuts rt sh (outs.take n) := by
+  induction outs generalizing rt n sh with
   | nil => simp [typeOuts]
   | cons o os ih =>
     have hos : PlainOuts os := fun o' h' => h o' (List.mem_cons_of_mem _ h')
     have ho : o.osc ≠ KEY_BACKSPACE := (h o (List.mem_cons_self ..)).1
     cases n with
     | zero =>
-      simp only [List.take_zero, typeOuts, List.length_cons, Nat.sub_zero, Bool.or_false]
-      have h1 := ih (stroke rt o.osc o.shift o.ag) hos 0 (by omega)
+      simp only [List.take_zero, typeOuts, List.length_cons, Nat.sub_zero]
+      have h1 := ih (stroke rt o.osc (o.shift || sh) o.ag) false hos 0 (by omega)
       simp only [Nat.sub_zero, List.take_zero, typeOuts] at h1
       rw [← List.drop_drop, h1]
       simp [stroke, ho]
     | succ m =>
-      simp only [List.take_succ_cons, typeOuts, List.length_cons, Bool.or_false]
-      have := ih (stroke rt o.osc o.shift o.ag) hos m (by simp only [List.length_cons] at hn; omega)
+      simp only [List.take_succ_cons, typeOuts, List.length_cons]
+      have := ih (stroke rt o.osc (o.shift || sh) o.ag) false hos m (by simp only [List.length_cons] at hn; omega)
       rw [show os.length + 1 - (m + 1) = os.length - m from by omega]
       exact this
 
@@ -401,6 +493,218 @@ theorem PlainOuts.take {outs : List ZchOut} (h : PlainOuts outs) (n : Nat) : Pla
 
 theorem PlainOuts.drop {outs : List ZchOut} (h : PlainOuts outs) (n : Nat) : PlainOuts (outs.drop n) :=
   fun o ho => h o (List.mem_of_mem_drop ho)
+
+/-! ### Chords that extend eagerly activated chords, to any depth -/
+
+/-- The chord `K ↦ out` has just been activated in this hold (possibly superseding shorter ones) and
+is still held: the screen shows `base ++ out (++ smart space)`, and the counters say so. -/
+def Eager (cfg : Cfg) (s0 : Zchd) (base : Buf) (K : Key) (out : List ZchOut) (s : Zchd) (b : Buf) : Prop :=
+  ∃ ph : Phase, Forming cfg ph s0 s [] 0 0 ∧ (∀ x, x ∈ ph.pre ↔ x ∈ K) ∧ ph.prior0 = some out ∧
+    ph.sh0 ≠ 0 ∧ ph.prio0 = none ∧ ph.ctd0 = out.length + (if wantsSmartSpace cfg out then 1 else 0) ∧
+    b.rtext = withSmartSpace cfg out (typeOuts base.rtext (s0.lsft || s0.rsft) out) ∧
+    ModsAgree s0 b ∧ PlainOuts out
+
+/-- One more level: with `K1 ↦ out1` eagerly on screen, `g` ticks pass and the remaining keys of a
+chord `K2 ↦ out2` that extends it go down in any order. -/
+theorem extends_step (cfg : Cfg) (s0 : Zchd) (base : Buf) (K1 K2 : Key) (out1 out2 : List ZchOut)
+    (s : Zchd) (b : Buf) (g : Nat) (front : List (Nat × Nat)) (last : Nat)
+    (he : Eager cfg s0 base K1 out1 s b)
+    (hne : ssmIsEmpty (levelSsm cfg.dict []) = false)
+    (hext : ExtEntry cfg.dict K1 K2 out2) (hnf : hasFollowups cfg.dict [K2] = false)
+    (hsub : ∀ x ∈ K1, x ∈ K2)
+    (hkeys : ∀ x ∈ K2, isZippyIgnored x = false)
+    (hout : out2.isEmpty = false) (hko : ∀ o ∈ out2, CharKey o.osc) (hp2 : PlainOuts out2)
+    (hperm : (front.map (·.1) ++ [last]).Perm (K2.filter (fun x => !K1.contains x)))
+    (hpunc : ∀ x ∈ K2, cfg.punctuation.contains (puncOf s0 x) = false)
+    (hgap : ∀ kg ∈ front, kg.2 ≤ TICKS_UNTIL_FORCE_STATE_RESET) (hg : g ≤ TICKS_UNTIL_FORCE_STATE_RESET)
+    (hdl : cfg.ticksChordDeadline = 0 ∨ g + (front.map (·.2)).sum < cfg.ticksChordDeadline) :
+    let r := zRun cfg s (List.replicate g .tick ++ (chordHist front ++ [.press last]))
+    Eager cfg s0 base K2 out2 r.1 (b.run r.2) := by
+  intro r
+  obtain ⟨ph, hf, hpre, hprior, hsh, hprio, hctd, htext, hmods, hp1⟩ := he
+  have hf2 := hf.ticks g (by omega) (by rcases hdl with h0 | h1; exact Or.inl h0; exact Or.inr (by omega))
+  simp only [Nat.zero_add] at hf2
+  have hmem2 : ∀ x, x ∈ front.map (·.1) ++ [last] ↔ (x ∈ K2 ∧ x ∉ K1) := by
+    intro x
+    rw [hperm.mem_iff]
+    simp [List.mem_filter]
+  have hnodup2 : (front.map (·.1) ++ [last]).Nodup := by
+    apply hperm.nodup_iff.mpr
+    exact (hext.sorted.imp (fun h => Nat.ne_of_lt h)).filter _
+  have hall : ∀ x, x ∈ ph.pre ++ (front.map (·.1) ++ [last]) ↔ x ∈ K2 := by
+    intro x
+    rw [List.mem_append, hpre x, hmem2 x]
+    constructor
+    · rintro (h | h)
+      · exact hsub x h
+      · exact h.1
+    · intro h
+      by_cases h1 : x ∈ K1
+      · exact Or.inl h1
+      · exact Or.inr ⟨h, h1⟩
+  have hlastK : last ∈ K2 := ((hmem2 last).mp (by simp)).1
+  have hlast1 : last ∉ K1 := ((hmem2 last).mp (by simp)).2
+  have hlastnot : last ∉ ph.pre ++ front.map (·.1) := by
+    intro h
+    rcases List.mem_append.mp h with h | h
+    · exact hlast1 ((hpre last).mp h)
+    · have := List.nodup_append.mp hnodup2
+      exact this.2.2 last h last (by simp) rfl
+  have hfullK : chordKey (ph.pre ++ (front.map (·.1) ++ [last])) = K2 :=
+    strictSorted_ext _ _ (strictSorted_chordKey _) hext.sorted
+      (fun x => by rw [mem_chordKey]; exact hall x)
+  have hpart : ∀ ks, ks ≠ [] → ks <+: front.map (·.1) →
+      findChordK cfg ph.prio0 (chordKey (ph.pre ++ (([] : List Nat) ++ ks))) = .subset := by
+    intro ks hks hpre'
+    rw [hprio, findChordK_none, List.nil_append]
+    have : lookupLevel cfg.dict [] (chordKey (ph.pre ++ ks)) = .isSubset := by
+      apply hext.lookup_part
+      · intro x hx
+        rw [mem_chordKey] at hx
+        apply (hall x).mp
+        rcases List.mem_append.mp hx with h | h
+        · exact List.mem_append_left _ h
+        · exact List.mem_append_right _ (List.mem_append_left _ (hpre'.subset h))
+      · obtain ⟨y, hy⟩ := List.exists_mem_of_ne_nil ks hks
+        refine ⟨y, (mem_chordKey _ _).mpr (List.mem_append_right _ hy), ?_⟩
+        exact ((hmem2 y).mp (List.mem_append_left _ (hpre'.subset hy))).2
+      · intro heq
+        have : last ∈ chordKey (ph.pre ++ ks) := heq ▸ hlastK
+        rw [mem_chordKey] at this
+        apply hlastnot
+        rcases List.mem_append.mp this with h | h
+        · exact List.mem_append_left _ h
+        · exact List.mem_append_right _ (hpre'.subset h)
+    rw [this]
+  have hfc : (findChordK cfg ph.prio0 (chordKey (ph.pre ++ (([] : List Nat) ++ (front.map (·.1) ++ [last]))))).act =
+      some ([], out2, false) := by
+    rw [hprio, findChordK_none, List.nil_append, hfullK, hext.lookup_full]; rfl
+  have hb0 : BufForming b b ([] : List Nat).length := ⟨⟨[], rfl, rfl⟩, rfl, rfl, rfl⟩
+  have hres := phase_finish cfg ph s0 (ticksN s g) b b [] g g front last out2 [] false hf2 hb0 hmods hne
+    (fun k hk => hkeys k ((hmem2 k).mp hk).1)
+    (fun _ => Or.inr (fun k hk => hpunc k ((hmem2 k).mp hk).1))
+    hpart hfc hout hko hgap hdl
+  have hrun : r = ((zRun cfg (ticksN s g) (chordHist front ++ [.press last])).1,
+      (zRun cfg (ticksN s g) (chordHist front ++ [.press last])).2) := by
+    show zRun cfg s (List.replicate g .tick ++ (chordHist front ++ [.press last])) = _
+    rw [zRun_append, zRun_ticks]; simp
+  rw [hrun]
+  obtain ⟨⟨L, hL, ht⟩, hm, _, _, hpost, _⟩ := hres
+  simp only [List.nil_append, List.length_nil, Nat.zero_add] at hL ht hpost
+  have hcpl : phaseCpl ph out2 false = commonPrefixLen out1 out2 := by
+    unfold phaseCpl
+    simp [hsh, hprior]
+  have hn := commonPrefixLen_le out1 out2
+  refine ⟨postPhase ph cfg (ph.pre ++ (front.map (·.1) ++ [last])) out2 [], hpost, ?_, rfl, ?_, ?_, ?_, ?_, hm, hp2⟩
+  · intro x; simp only [postPhase]; exact hall x
+  · simp [postPhase]
+  · simp only [postPhase, List.nil_append, hfullK, hnf]; rfl
+  · simp only [postPhase, displayLen_plain out2 hp2]
+  · -- what is on screen
+    rw [ht, hcpl, htext]
+    have hbs : phaseBs ph front.length out2 false =
+        L.length + ((if wantsSmartSpace cfg out1 then 1 else 0) + (out1.length - commonPrefixLen out1 out2)) := by
+      unfold phaseBs
+      rw [hcpl, hctd]
+      simp only [Bool.false_eq_true, if_false]
+      split <;> omega
+    rw [hbs, List.drop_append, List.drop_eq_nil_of_le (by omega), Nat.add_sub_cancel_left, List.nil_append]
+    have hdrop : List.drop ((if wantsSmartSpace cfg out1 = true then 1 else 0) + (out1.length - commonPrefixLen out1 out2))
+        (withSmartSpace cfg out1 (typeOuts base.rtext (s0.lsft || s0.rsft) out1)) =
+        typeOuts base.rtext (s0.lsft || s0.rsft) (out1.take (commonPrefixLen out1 out2)) := by
+      rw [← typeOuts_plain_drop base.rtext _ out1 hp1 _ hn.1]
+      unfold withSmartSpace
+      split
+      · simp only [stroke, KEY_SPACE, KEY_BACKSPACE]
+        rw [Nat.add_comm 1]
+        simp [List.drop_succ_cons]
+      · simp
+    rw [hdrop]
+    have hemp : (decide (commonPrefixLen out1 out2 = 0)) = (out1.take (commonPrefixLen out1 out2)).isEmpty := by
+      by_cases h0 : commonPrefixLen out1 out2 = 0
+      · simp [h0]
+      · have : 0 < commonPrefixLen out1 out2 := by omega
+        cases out1 with
+        | nil => simp at hn; omega
+        | cons o os =>
+          obtain ⟨m, hm'⟩ := Nat.exists_eq_succ_of_ne_zero h0
+          simp [hm', h0]
+    rw [hemp, ← typeOuts_append, commonPrefixLen_take, List.take_append_drop]
+
+/-- A basic chord without follow-ups, pressed from a fresh state, is eagerly on screen. -/
+theorem basic_eager (cfg : Cfg) (K : Key) (out : List ZchOut) (s : Zchd) (b : Buf)
+    (front : List (Nat × Nat)) (last : Nat)
+    (hent : BasicEntry cfg.dict K out) (hnf : hasFollowups cfg.dict [K] = false)
+    (hkeys : ∀ x ∈ K, isZippyIgnored x = false)
+    (hout : out.isEmpty = false) (hko : ∀ o ∈ out, CharKey o.osc) (hp : PlainOuts out)
+    (hperm : (front.map (·.1) ++ [last]).Perm K)
+    (hgap : ∀ kg ∈ front, kg.2 ≤ TICKS_UNTIL_FORCE_STATE_RESET)
+    (hdl : cfg.ticksChordDeadline = 0 ∨ (front.map (·.2)).sum < cfg.ticksChordDeadline)
+    (hfresh : Fresh s) (hmods : ModsAgree s b) :
+    let r := zRun cfg s (chordHist front ++ [.press last])
+    Eager cfg s (bufAfterPunct cfg s ((front.map (·.1) ++ [last]).headD 0) b) K out r.1 (b.run r.2) := by
+  intro r
+  obtain ⟨ht, hm, _, _, hpost, _⟩ := basic_run cfg K out s b front last hent hkeys hout hko hperm hgap hdl hfresh hmods
+  obtain ⟨hmem, _, _, hfull⟩ := perm_facts hent.sorted hperm
+  refine ⟨_, hpost, ?_, rfl, ?_, ?_, ?_, ht, hm, hp⟩
+  · intro x; simp only [postPhase, idlePhase, List.nil_append]; exact hmem x
+  · simp [postPhase]
+  · simp only [postPhase, idlePhase, List.nil_append, hfull, hnf]; rfl
+  · simp only [postPhase, displayLen_plain out hp]
+
+/-- One level of a tower of chords: the chord, the ticks before its first new key, the new keys. -/
+structure Step where
+  K : Key
+  out : List ZchOut
+  g : Nat
+  front : List (Nat × Nat)
+  last : Nat
+
+/-- what `extends_step` needs of a level above `K1` -/
+structure StepOK (cfg : Cfg) (s0 : Zchd) (K1 : Key) (st : Step) : Prop where
+  ext : ExtEntry cfg.dict K1 st.K st.out
+  nf : hasFollowups cfg.dict [st.K] = false
+  sub : ∀ x ∈ K1, x ∈ st.K
+  keys : ∀ x ∈ st.K, isZippyIgnored x = false
+  out : st.out.isEmpty = false
+  ko : ∀ o ∈ st.out, CharKey o.osc
+  plain : PlainOuts st.out
+  perm : (st.front.map (·.1) ++ [st.last]).Perm (st.K.filter (fun x => !K1.contains x))
+  punc : ∀ x ∈ st.K, cfg.punctuation.contains (puncOf s0 x) = false
+  gap : ∀ kg ∈ st.front, kg.2 ≤ TICKS_UNTIL_FORCE_STATE_RESET
+  g : st.g ≤ TICKS_UNTIL_FORCE_STATE_RESET
+  dl : cfg.ticksChordDeadline = 0 ∨ st.g + (st.front.map (·.2)).sum < cfg.ticksChordDeadline
+
+def TowerOK (cfg : Cfg) (s0 : Zchd) : Key → List Step → Prop
+  | _, [] => True
+  | K1, st :: r => StepOK cfg s0 K1 st ∧ TowerOK cfg s0 st.K r
+
+def towerHist : List Step → List ZEv
+  | [] => []
+  | st :: r => (List.replicate st.g .tick ++ (chordHist st.front ++ [.press st.last])) ++ towerHist r
+
+def towerTop (K1 : Key) (out1 : List ZchOut) : List Step → Key × List ZchOut
+  | [] => (K1, out1)
+  | st :: r => towerTop st.K st.out r
+
+/-- Any number of levels, by induction. -/
+theorem tower_run (cfg : Cfg) (s0 : Zchd) (base : Buf) (steps : List Step) :
+    ∀ (K1 : Key) (out1 : List ZchOut) (s : Zchd) (b : Buf),
+      ssmIsEmpty (levelSsm cfg.dict []) = false →
+      Eager cfg s0 base K1 out1 s b → TowerOK cfg s0 K1 steps →
+      Eager cfg s0 base (towerTop K1 out1 steps).1 (towerTop K1 out1 steps).2
+        (zRun cfg s (towerHist steps)).1 (b.run (zRun cfg s (towerHist steps)).2) := by
+  induction steps with
+  | nil => intro K1 out1 s b _ he _; simpa [towerHist, towerTop, zRun, run_nil] using he
+  | cons st r ih =>
+    intro K1 out1 s b hne he hok
+    obtain ⟨h1, hrest⟩ := hok
+    have hstep := extends_step cfg s0 base K1 st.K out1 st.out s b st.g st.front st.last he hne
+      h1.ext h1.nf h1.sub h1.keys h1.out h1.ko h1.plain h1.perm h1.punc h1.gap h1.g h1.dl
+    have := ih st.K st.out _ _ hne hstep hrest
+    simp only [towerHist, towerTop]
+    rw [zRun_append, run_append]
+    exact this
 
 /-- Holding a key that zippychord ignores (e.g. shift) for `n` ticks from an idle enabled state only
 advances `ticksSinceStateChange`. -/
